@@ -45,20 +45,7 @@ func (v *Vue) evalConditionExpr(ctx VueContext, expr string) (bool, error) {
 	// expr library fails when trying to negate nil (e.g., "!item.primary" where primary key doesn't exist).
 	// Workaround: evaluate the inner expression and negate the boolean conversion.
 	if strings.HasPrefix(expr, "!") {
-		innerExpr := strings.TrimSpace(expr[1:])
-		// Try to evaluate inner expression (may return nil)
-		innerResult, innerErr := v.exprEval.Eval(innerExpr, v.exprEnv(ctx))
-		if innerErr == nil {
-			// Successfully evaluated - convert nil to bool and negate
-			return !helpers.IsTruthy(innerResult), nil
-		}
-		// Fall back to stack resolution if expr evaluation fails
-		val, ok := ctx.stack.Resolve(innerExpr)
-		if ok {
-			return !helpers.IsTruthy(val), nil
-		}
-		// Undefined value: !undefined = true
-		return true, nil
+		return v.evalNot(ctx, expr), nil
 	}
 
 	// Fall back to legacy behavior for simple variable references
@@ -259,4 +246,27 @@ func (v *Vue) onceSeen(ctx VueContext, node *html.Node) bool {
 	}
 	ctx.seen[id] = true
 	return false
+}
+
+// evalNot evaluates "!operand" where the expression engine could not: it only
+// negates booleans, and fails on nil. The operand is evaluated on its own (as
+// an expression, then as a path only the variable stack resolves) and its
+// truthiness negated; an undefined operand is falsy, so its negation is true.
+// Conditions, bound attributes, object-syntax values and {{ }} share it, so
+// that !x means the same in all of them.
+func (v *Vue) evalNot(ctx VueContext, expr string) bool {
+	innerExpr := strings.TrimSpace(strings.TrimPrefix(strings.TrimSpace(expr), "!"))
+	if strings.HasPrefix(innerExpr, "!") {
+		return !v.evalNot(ctx, innerExpr)
+	}
+	// Try to evaluate inner expression (may return nil)
+	if innerResult, innerErr := v.exprEval.Eval(innerExpr, v.exprEnv(ctx)); innerErr == nil {
+		return !helpers.IsTruthy(innerResult)
+	}
+	// Fall back to stack resolution if expr evaluation fails
+	if val, ok := ctx.stack.Resolve(innerExpr); ok {
+		return !helpers.IsTruthy(val)
+	}
+	// Undefined value: !undefined = true
+	return true
 }
